@@ -667,3 +667,38 @@ package graphql
 //@   at! `marshaler.MarshalGQLContext(ctx, w)` ghost failed = callres0 != nil
 //@   callsite Write: requires !failed
 //@   ensures !failed
+
+// ---------------------------------------------------------------- C08: the remaining built-in scalars (thin)
+// Boolean writes exactly strconv.FormatBool(b); Time is null for the zero time and otherwise exactly one write of
+// strconv.Quote of the RFC3339Nano text (ASCII digits and punctuation: the Go and JSON quotings coincide); Duration
+// goes through MarshalString (whose writer is proved above; UUID too, but its [16]byte comparison is outside the model); Map and Any encode through encoding/json and
+// fail loudly (panic) rather than return after a failed encode.
+//@ func MarshalBoolean [C08]
+//@   at! `strconv.FormatBool(b)` requires arg0 == b
+//@ func MarshalBoolean$1 [C08]
+//@   ensures calls(Write) == 1
+//@ trusted (time.Time).IsZero() (z)
+//@   nopanic
+//@   pure
+//@ trusted (time.Time).Format(layout) (s)
+//@   nopanic
+//@   pure
+//@ trusted strconv.Quote(s) (q)
+//@   nopanic
+//@   pure
+//@ func MarshalTime$1 [C08]
+//@   at! `t.Format(time.RFC3339Nano)` requires arg0 == time.RFC3339Nano
+//@   at! `strconv.Quote(t.Format(time.RFC3339Nano))` requires true
+//@   ensures calls(WriteString) == 1 && calls(Quote) == 1 && calls(Format) == 1
+//@ func MarshalDuration [C08]
+//@   at! `dur.Format(d)` requires arg0 == d
+//@   ensures calls(MarshalString) == 1
+//@ trusted (*encoding/json.Encoder).Encode(v) (err)
+//@ func MarshalMap$1 [C08]
+//@   ghost failed = false
+//@   at! `json.NewEncoder(w).Encode(val)` ghost failed = callres0 != nil
+//@   ensures !failed
+//@ func MarshalAny$1 [C08]
+//@   ghost failed = false
+//@   at! `json.NewEncoder(w).Encode(v)` ghost failed = callres0 != nil
+//@   ensures !failed
